@@ -1105,6 +1105,7 @@ fn quote_into_trait(input: &DataType, ctx: &ImplContext, pre_init: Option<TokenS
     let body = match post_init {
         Some(post_init) => quote! {
             let mut obj: #dst = Default::default();
+            #pre_init
             #init
             #post_init
             obj
@@ -1134,6 +1135,7 @@ fn quote_try_into_trait(input: &DataType, ctx: &ImplContext, pre_init: Option<To
     let body = match post_init {
         Some(post_init) => quote! {
             let mut obj: #dst = Default::default();
+            #pre_init
             #init
             #post_init
             Ok(obj)
